@@ -1037,7 +1037,7 @@ def detect_mode(impl_w):
 
 def check(run):
     quick = run.tier == "quick"
-    n_cases = 400 if quick else 1800
+    n_cases = 340 if quick else 1800
     max_adds = 10 if quick else 40
     run.coverage["rule"] = (
         "histories of 1..%d add/load calls (objects, dictionaries, lists, nested lists, Bundle objects, dictionary "
